@@ -120,6 +120,7 @@ func runC11(c *core.Ctx) {
 	cas := []*gen.CA{root, inter}
 	n := c.Pick(800, 15000)
 	byteEq, errorsOK, dsseOK, injective, reuseOK, readOnlyOK, nilOK := int64(0), int64(0), int64(0), int64(0), int64(0), int64(0), int64(0)
+	insRefused, insDiffer := int64(0), int64(0)
 	extraKey := gen.Mixed(pool, 5)[4].Pub
 	for i := 0; i < n; i++ {
 		if !c.Mine(i) {
@@ -257,6 +258,33 @@ func runC11(c *core.Ctx) {
 			}
 			seen[string(b3)] = m.Path
 			injective++
+		}
+		// ---- ... and so does every member added to the file: a loader may refuse a file with a member it
+		// does not know, but what it accepts is what gets signed and verified ----
+		nIns := 0
+		for _, m := range gen.Mutations(map[string]any{"signed": gen.DeepCopy(normTree(v.tree)), "signatures": []any{}}, "/signed/", map[string]bool{"insert": true}) {
+			if nIns >= 40 {
+				break
+			}
+			nIns++
+			fb, _ := json.Marshal(m.Doc)
+			p := filepath.Join(c.WorkDir, "inserted.json")
+			os.WriteFile(p, fb, 0644)
+			md, lerr := intoto.LoadMetadata(p)
+			c.Eval(1)
+			if lerr != nil {
+				insRefused++
+				continue
+			}
+			mb, isMB := md.(*intoto.Metablock)
+			if !isMB {
+				continue
+			}
+			if b4, e4 := mb.GetSignableRepresentation(); e4 == nil && bytes.Equal(b4, want) {
+				c.Violation("a file with one more member than the signed content is accepted and has the signed bytes of the content without it", id, map[string]any{"added": m.Path, "file": string(fb)})
+				break
+			}
+			insDiffer++
 		}
 		// ---- DSSE: payload is valid JSON and decodes to what was set -----------
 		env := &intoto.Envelope{}
@@ -418,6 +446,8 @@ func runC11(c *core.Ctx) {
 	c.Obs("non_integral_refused", errorsOK)
 	c.Obs("dsse_payload_valid_and_roundtrips", dsseOK)
 	c.Obs("single_edit_variants_distinct", injective)
+	c.Obs("files_with_an_added_member_refused", insRefused)
+	c.Obs("files_with_an_added_member_signed_differently", insDiffer)
 	c.Obs("reused_objects_follow_in_place_changes", reuseOK)
 	c.Obs("read_only_calls_left_signed_bytes_alone", readOnlyOK)
 	c.Obs("absent_collections_roundtrip", nilOK)
@@ -546,7 +576,7 @@ func init() {
 	core.Register(&core.Property{
 		ID:    "C11",
 		Level: "exploration",
-		Rule: "seeded links and layouts with every field populated (strings over an alphabet with quotes, backslashes, all kinds of control characters, DEL, U+2028, <>&, non-ASCII, astral and combining characters; nested by-product/environment values: maps, lists, ints, bools, null, integral and non-integral floats; certificate constraints and CA maps present or absent), rendered in parallel as library structs and as a generic tree with the member names of the in-toto specification. Checks per value: byte equality of GetSignableRepresentation with the reference OLPC canonicalisation; 6 re-serialisations of the file (shuffled member order, random whitespace, alternative spellings of integral numbers) give the same bytes; every single-leaf edit gives different bytes (collision set); non-integral numbers are refused (and a SetPayload that is refused leaves the envelope - GetPayload, the signed payload, the dumped file - as it was); DSSE: SetPayload/Sign/Dump, payload strictly valid JSON, decodes to the set value, LoadMetadata returns the set value and verifies. Read-only calls (ValidateMetablock, GetPayload, Sigs) between signing and verifying must leave the signed bytes and the envelope's payload object as they were. A fifth of the values also with absent (nil) collections: sign, dump, load, verify in both wrappers (no reference bytes there). Re-used objects: after a first Sign+Verify (Metablock) / SetPayload+Sign+Dump (Envelope) the metadata is changed in place through a map or slice it shares with the caller (new product path, new by-product, pubkeys[0], new layout key); the signed bytes must be the canonical JSON of the changed content, the old signature must not verify any more, a new one must verify on a reloaded copy, and a second SetPayload on the same envelope must carry the changed content. " +
+		Rule: "seeded links and layouts with every field populated (strings over an alphabet with quotes, backslashes, all kinds of control characters, DEL, U+2028, <>&, non-ASCII, astral and combining characters; nested by-product/environment values: maps, lists, ints, bools, null, integral and non-integral floats; certificate constraints and CA maps present or absent), rendered in parallel as library structs and as a generic tree with the member names of the in-toto specification. Checks per value: byte equality of GetSignableRepresentation with the reference OLPC canonicalisation; 6 re-serialisations of the file (shuffled member order, random whitespace, alternative spellings of integral numbers) give the same bytes; every single-leaf edit gives different bytes (collision set); a file with one more member or list element anywhere inside the signed part (up to 40 places per value) is refused by the loader or has other signed bytes; non-integral numbers are refused (and a SetPayload that is refused leaves the envelope - GetPayload, the signed payload, the dumped file - as it was); DSSE: SetPayload/Sign/Dump, payload strictly valid JSON, decodes to the set value, LoadMetadata returns the set value and verifies. Read-only calls (ValidateMetablock, GetPayload, Sigs) between signing and verifying must leave the signed bytes and the envelope's payload object as they were. A fifth of the values also with absent (nil) collections: sign, dump, load, verify in both wrappers (no reference bytes there). Re-used objects: after a first Sign+Verify (Metablock) / SetPayload+Sign+Dump (Envelope) the metadata is changed in place through a map or slice it shares with the caller (new product path, new by-product, pubkeys[0], new layout key); the signed bytes must be the canonical JSON of the changed content, the old signature must not verify any more, a new one must verify on a reloaded copy, and a second SetPayload on the same envelope must carry the changed content. " +
 			"non-trivial = value contains a hostile string or an optional member; distinct = hash of the value",
 		Assumptions: []string{"strings are valid UTF-8 (JSON cannot carry anything else)", "all collections are non-nil, so the reference rendering is fixed by the specification's field table (harness/gen/meta.go)", "for DSSE, refusing non-integral numbers is not demanded"},
 		Workers:     func(string) int { return 16 },
